@@ -44,6 +44,8 @@ CONSTANTS
     ContainMode,   \* "ancestry" | "textual"
     DestMode,      \* "normalised" | "joined" | "unstripped" (a leading '/' of save_as survives the factory)
                    \* | "mangle32" (only the first 32 '/' of a command line are turned into '.')
+    CopyMode,      \* "content": a persisted raw file is a copy of the content (specified) | "preserve": the
+                   \* object is copied as it is, so a path that ends in a symlink is persisted as a symlink
     DenyFactories, \* factories explored by the DenyList sub-model
     DenyMax        \* entries per deny list
 
@@ -202,6 +204,20 @@ RelOf(sa, p) ==
 DstSegs(sa, p) == IF DestMode = "normalised" THEN Normal(RelOf(sa, p), <<>>) ELSE RelOf(sa, p)
 
 DstWalk(l, sg) == Run(l.fs, [Walk(l.out, sg, TRUE) EXCEPT !.virt = <<"data">>])
+
+(* Two specs may persist the SAME relative path (the same file collected    *)
+(* raw by one spec and as text by another).  If the first one left a        *)
+(* symlink at the destination, the second one's open(dst, "wb") writes      *)
+(* through it: where that lands.                                            *)
+LastNode(l, p) ==                      \* the object the last segment of the path names, links not followed
+    LET pr == Resolve(l, Front(p)) IN
+    IF pr.status = "ok" /\ l.fs[pr.cur].k = "dir" /\ Last(p) \notin {"..", "."} THEN Child(l.fs, pr.cur, Last(p)) ELSE 0
+SecondWrite(l, sg, p) ==
+    LET n == LastNode(l, p) IN
+    IF CopyMode = "preserve" /\ n # 0 /\ l.fs[n].k = "link" /\ sg # <<>>
+      THEN {IF l.fs[n].abs THEN WalkLoc(l.fs, Run(l.fs, Walk(Top, l.fs[n].segs, TRUE)))
+            ELSE WalkLoc(l.fs, DstWalk(l, Front(sg) \o l.fs[n].segs))}
+      ELSE {}
 DstLoc(l, sg)  == WalkLoc(l.fs, DstWalk(l, sg))
 UnderOut(l, loc) == IsPrefix(Loc(l.fs, l.out), loc)
 
@@ -243,10 +259,16 @@ CmdEntries(f)  ==
     {<<Item(f, 1).w[1]>>, SubSeq(Item(f, 1).w, 1, Len(Item(f, 1).w) - 1),
      Item(f, 1).w \o <<"z">>, <<"/bin/ech">>, <<"nosuchspec">>}
 
-KnownSpecs == {"hosts", "fstab", "date"}          \* symbolic names (insights.specs.default.DefaultSpecs.<n>)
+(* symbolic names (insights.specs.default.DefaultSpecs.<n>); three of them contain digits *)
+KnownSpecs == {"hosts", "fstab", "date", "grub2_cfg", "x86_pti_enabled", "wc_proc_1_mountinfo"}
 SpecItem(n) == CASE n = "hosts" -> [t |-> "file", w |-> <<"/etc/hosts">>, cls |-> "plain"]
                  [] n = "fstab" -> [t |-> "file", w |-> <<"/etc/fstab">>, cls |-> "plain"]
                  [] n = "date"  -> [t |-> "cmd",  w |-> <<"/bin/date">>, cls |-> "plain"]
+                 [] n = "grub2_cfg" -> [t |-> "file", w |-> <<"/boot/grub2/grub.cfg">>, cls |-> "digit-name"]
+                 [] n = "x86_pti_enabled" -> [t |-> "file", w |-> <<"/sys/kernel/debug/x86/pti_enabled">>, cls |-> "digit-name"]
+                 [] n = "wc_proc_1_mountinfo" -> [t |-> "cmd", w |-> <<"/usr/bin/wc", "-l", "/proc/1/mountinfo">>, cls |-> "digit-name"]
+OtherSpec(n) == CASE n = "hosts" -> "grub2_cfg" [] n = "grub2_cfg" -> "hosts" [] n = "fstab" -> "x86_pti_enabled"
+                  [] n = "x86_pti_enabled" -> "wc_proc_1_mountinfo" [] n = "date" -> "fstab" [] OTHER -> "date"
 FullName(n) == "insights.specs.default.DefaultSpecs." \o n
 
 IsIdent(e) == Len(e) = 1 /\ e[1] \in KnownSpecs \cup {"nosuchspec"}
@@ -289,11 +311,11 @@ DenyCases ==
     UNION { { DCase(f, pk, {}, ce, "none") : ce \in Upto(CmdEntries(f)), pk \in Picks(f) }
                 : f \in DenyFactories \ FileFactories } \cup
     UNION { { DCase(f, pk, {}, {}, sa) : sa \in SaveAsForms(f), pk \in Picks(f) } : f \in DenyFactories } \cup
-    { [factory |-> "spec", comp |-> n, pick |-> 1, files |-> fe, commands |-> ce, comps |-> cs, saveas |-> "none"]
-        : n \in (IF DenyFactories = {} THEN {} ELSE KnownSpecs),
-          fe \in Tiny({<<"hosts">>, <<"date">>, <<"/etc/hosts">>, <<"/etc/fstab">>, <<"nosuchspec">>}),
-          ce \in Tiny({<<"date">>, <<"fstab">>, <<"/bin/date">>, <<"/bin">>}),
-          cs \in Tiny({FullName("hosts"), FullName("fstab"), FullName("date"), "insights.nosuch.component"}) }
+    UNION { { [factory |-> "spec", comp |-> n, pick |-> 1, files |-> fe, commands |-> ce, comps |-> cs, saveas |-> "none"]
+        : fe \in Tiny({<<n>>, <<OtherSpec(n)>>, SpecItem(n).w, <<"/etc/fstab">>, <<"nosuchspec">>}),
+          ce \in Tiny({<<n>>, <<OtherSpec(n)>>, SpecItem(n).w, <<"/bin">>}),
+          cs \in Tiny({FullName(n), FullName(OtherSpec(n)), "insights.nosuch.component"}) }
+        : n \in (IF DenyFactories = {} THEN {} ELSE KnownSpecs) }
 
 CaseItems(c) == IF c.factory = "spec" THEN <<SpecItem(c.comp)>>
                 ELSE IF c.factory \in SingleItem THEN <<Item(c.factory, c.pick)>>
@@ -303,7 +325,7 @@ CaseItems(c) == IF c.factory = "spec" THEN <<SpecItem(c.comp)>>
 (* world (W2/{root, out}): out/data (+) prefix (+) rel(save_as, item).      *)
 ItemIdx(c, i) == IF c.factory \in SingleItem THEN c.pick ELSE i
 ItemRel(c, i) ==
-    IF c.factory = "spec" THEN (IF SpecItem(c.comp).t = "file" THEN <<"etc", c.comp>> ELSE <<c.comp>>)
+    IF c.factory = "spec" THEN (IF SpecItem(c.comp).t = "file" THEN <<"spec", c.comp>> ELSE <<c.comp>>)
     ELSE IF c.factory \in FileFactories THEN <<"x", FileBase[ItemIdx(c, i)]>>
     ELSE IF DestMode = "mangle32" /\ CaseItems(c)[i].cls = "deep"
          THEN <<"cmd" \o ToString(i), "n", "n", "n", "n", "n", "n", "n", "n", "..", "..", "..", "..", "..", "..", "..",
@@ -362,7 +384,8 @@ Yield ==
     /\ lay.fs[w.cur].k = "file"
     /\ Inside(lay, w.cur)
     /\ yielded' = TRUE
-    /\ written' = {DstLoc(lay, DstSegs(sa, path)) : sa \in SaveAsSet}
+    /\ written' = {DstLoc(lay, DstSegs(sa, path)) : sa \in SaveAsSet} \cup
+                  UNION {SecondWrite(lay, DstSegs(sa, path), path) : sa \in SaveAsSet}
     /\ UNCHANGED <<sub, lay, path, w, dn>>
 
 ExtendAny == \E s \in NextSegs(lay, w) : Extend(s)
